@@ -229,6 +229,19 @@ func runQP(c QPCase, rec *h.Rec) error {
 	discriminates := bBig.Cmp(new(big.Int).Rsh(QP, 4)) < 0
 	nRaw, nDom := h.InfNorm(raw), h.InfNorm(dom)
 	okRaw, okDom := nRaw.Cmp(bBig) <= 0, nDom.Cmp(bBig) <= 0
+	// pk path: honours the flag. sk path (encryptZeroSkFromC1QP): always Montgomery, whatever the flag; every lattigo
+	// caller sets it, so only the flag-set case is pinned (flag clear: either reading, recorded).
+	if discriminates && (c.Kind == "pk" || c.IsMont) {
+		wantOK, otherOK := okRaw, okDom
+		if c.IsMont {
+			wantOK, otherOK = okDom, okRaw
+		}
+		if !wantOK && otherOK {
+			return h.Failf(kbase+":montgomery-flag-not-honoured", "IsMontgomery=%v but the error is small only under the other reading: %s (raw) / %s (after IMForm), bound %s", c.IsMont, nRaw, nDom, bBig)
+		}
+	} else if c.Kind == "sk" && !c.IsMont {
+		rec.Class("sk-qp:montflag-clear:ignored")
+	}
 	switch {
 	case okRaw && okDom:
 		rec.Class("mont=both")
